@@ -110,3 +110,52 @@ func Cancelled(c Context) bool {
 	}
 	return false
 }
+
+// WithTimeout / WithDeadline: the deadline may land at any instant (a helper thread whose single step cancels with
+// DeadlineExceeded), so both "timeout first" and "work first" are explored; cancel stops the helper's effect.
+func WithTimeout(parent Context, _ time.Duration) (Context, CancelFunc) { return withDeadline(parent) }
+
+func WithDeadline(parent Context, _ time.Time) (Context, CancelFunc) { return withDeadline(parent) }
+
+func withDeadline(parent Context) (Context, CancelFunc) {
+	c := newCancel(parent)
+	if mc.S != nil {
+		mc.Go(func() {
+			mc.Simple("deadline", func() bool { return true }, func() { c.cancelLocked(DeadlineExceeded, DeadlineExceeded) })
+		})
+	}
+	return c, func() {
+		mc.Simple("cancel", func() bool { return true }, func() { c.cancelLocked(Canceled, Canceled) })
+	}
+}
+
+// WithValue keeps the key/value pair and otherwise behaves like its parent.
+type valueCtx struct {
+	Context
+	k, v any
+}
+
+func (c valueCtx) Value(k any) any {
+	if k == c.k {
+		return c.v
+	}
+	return c.Context.Value(k)
+}
+
+func WithValue(parent Context, k, v any) Context { return valueCtx{parent, k, v} }
+
+// AfterFunc mirrors context.AfterFunc: f runs in its own thread once ctx is done.
+func AfterFunc(ctx Context, f func()) (stop func() bool) {
+	stopped := false
+	mc.Go(func() {
+		if d := ctx.Done(); d != nil {
+			d.Recv()
+		} else {
+			return
+		}
+		if !stopped {
+			f()
+		}
+	})
+	return func() bool { was := !stopped; stopped = true; return was }
+}
